@@ -191,6 +191,9 @@ def struct_defs(tm):
         out.append(("vf_pair_" + tag, PAIR % {"G": tag, "A": a, "B": b}, deps))
     for tag, t in tm.opt_insts.items():
         out.append(("vf_opt_" + tag, OPT % {"G": tag, "T": t}, [t[7:]] if is_structy(t) else []))
+    for tag, (t, n) in tm.arr_insts.items():
+        out.append(("vf_arr_" + tag, "struct vf_arr_%s { %s a[%s]; }; /* std::array */\n" % (tag, t, n),
+                    [t[7:]] if is_structy(t) else []))
     for tag, t in tm.seq_insts.items():
         out.append(("vf_seq_" + tag, (SEQ % {"G": tag, "T": t, "EQ": ""}).split("/*FUNCS*/")[0], []))
     for tag, t in tm.set_insts.items():
